@@ -44,6 +44,7 @@ def build_runtime():
             fh.write(stub)
     import shutil
     shutil.copyfile(os.path.join(VERIF, 'jsdse', 'S.mjs'), os.path.join(RTI, 'S.mjs'))
+    shutil.copyfile(os.path.join(VERIF, 'jsdse', 'S.mjs'), os.path.join(RT, 'S.mjs'))   # helpers only: the stripped code does not use it
 
 
 def node(script, *args, timeout=120):
